@@ -539,11 +539,14 @@ class Graph(object):
         return self._points
 
     def reset(self):
-        """Reset points to an empty list
-        and current context to an empty dict.
+        """Reset points to an empty list,
+        current context to an empty dict
+        and scale to its initial value.
         """
         self._points = []
         self._cur_context = {}
+        # a scale taken from the flow context belongs to the filled data
+        self._scale = self._init_context["scale"]
 
     def __repr__(self):
         self._update()
